@@ -427,6 +427,24 @@ const char *ares_uri_get_password(const ares_uri_t *uri)
   return uri->password;
 }
 
+/* RFC 6874 ZoneID: made of unreserved characters (interface names such as
+ * "br-lan" or "eth0.10" are not purely alphanumeric) */
+static ares_bool_t ares_uri_str_iszoneid(const char *str)
+{
+  size_t i;
+
+  if (str == NULL || *str == 0) {
+    return ARES_FALSE;
+  }
+
+  for (i = 0; str[i] != 0; i++) {
+    if (!ares_uri_chis_unreserved(str[i])) {
+      return ARES_FALSE;
+    }
+  }
+  return ARES_TRUE;
+}
+
 ares_status_t ares_uri_set_host(ares_uri_t *uri, const char *host)
 {
   struct ares_addr addr;
@@ -447,7 +465,7 @@ ares_status_t ares_uri_set_host(ares_uri_t *uri, const char *host)
   if (ll_scope != NULL) {
     *ll_scope = 0;
     ll_scope++;
-    if (!ares_str_isalnum(ll_scope)) {
+    if (!ares_uri_str_iszoneid(ll_scope)) {
       return ARES_EBADNAME;
     }
   }
